@@ -37,7 +37,7 @@ ROWS = [
     P("VecRangeToArr3", "Vec<RangeTo<[u8;3]>>", 4, 6, borrows=True, quick=True, note="element size 3: not a power of two"),
     P("VecRangeToUnit", "Vec<RangeTo<()>>", 1, 4, borrows=True, note="zero-sized range"),
     P("BoxU32", "Box<[u32]>", 4, 5, borrows=True, quick=True),
-    P("Str", "String", 1, 10, borrows=True, quick=True, note="<= 2 chars, every code point, 8 width-class shapes", shapes=8, qshapes=[0, 1, 4, 6]),
+    P("Str", "String", 1, 10, borrows=True, quick=True, note="<= 2 chars, every code point, 8 width-class shapes", shapes=8, qshapes=[0, 4, 6]),
     P("BoxStr", "Box<str>", 1, 10, borrows=True, shapes=8, qshapes=[5]),
     # deep sequences
     P("VecVecU16", "Vec<Vec<u16>>", 2, 4, borrows=True, quick=True, shapes=6, qshapes=[0, 1, 5]), P("VecString", "Vec<String>", 1, 6, borrows=True, shapes=6, qshapes=[5]),
@@ -59,7 +59,7 @@ ROWS = [
     # derived deep-copy
     P("DeepSVec", "DeepS<Vec<u16>>", 2, 6, borrows=True, quick=True), P("DeepSStr", "DeepS<String>", 1, 6, borrows=True, shapes=3, qshapes=[2]),
     P("DeepSU32", "DeepS<u32>"), P("MentionU16", "Mention<u16>", 2, 6), P("BothC", "Both<Vec<u8>,u16,String>", 2, 5, borrows=True),
-    P("GenC", "Gen<Vec<u16>,2>", 2, 10, borrows=True, quick=True), P("TupSC", "TupS", 2, 6), P("UnitSC", "UnitS"),
+    P("GenC", "Gen<Vec<u16>,2>", 2, 10, borrows=True), P("TupSC", "TupS", 2, 6), P("UnitSC", "UnitS"),
     P("DeepPrimsC", "DeepPrims (#[deep_copy])"),
     P("HoldZUnit", "Hold<ZUnit>", 1, 3, quick=True), P("HoldZAl4", "Hold<ZAl4>", 4, 3, quick=True, note="over-aligned ZST in a parameter field"),
     P("HoldZeroS", "Hold<ZeroS>", 4, 3, borrows=True),
